@@ -120,7 +120,9 @@ def check(run):
         u = v & ((1 << 64) - 1)
         lines.append("vnum64 %d" % u); meta.append(("vnum64", u))
         lines.append("vnum32 %d" % (u & 0xffffffff)); meta.append(("vnum32", u & 0xffffffff))
-        for mx in ([30, 21, 0, 1, 2, 3] if tier == "quick" else list(range(0, 25)) + [30, 64]) + [rng.range(0, 24)]:
+        edge = v in (-(1 << 63), -(1 << 63) + 1, (1 << 63) - 1, 0, -1, 9, 10, -9, -10, 10 ** 18, -10 ** 18, 99999999999, -99999999999)
+        # the extremes (INT64_MIN has its own branch in iwitoa) get every buffer size in every tier
+        for mx in ([30, 21, 0, 1, 2, 3] if (tier == "quick" and not edge) else list(range(0, 25)) + [30, 64]) + [rng.range(0, 24)]:
             lines.append("itoa %d %d" % (v, mx)); meta.append(("itoa", v, mx))
         s = str(v).encode()
         if rng.chance(1, 4):
